@@ -27,6 +27,10 @@ def run(tier, seed):
     # one honest party sees the check "hold" by coincidence, blames the complainer and ends alone)
     dirs += [D("dkg", 6, 2, [0, 0, 0, 0, 0, 1], 13360, gi=0, grp=(2063, 1031, 64, 597)),
              dict(D("dkg", 7, 3, [0, 1, 0, 0, 0, 0, 0], 13298, gi=0, grp=(2063, 1031, 25, 623)), rnd=False)]
+    # Pedersen-VSS dealer that hands one party a pair with only the first (seed even) or only the second (seed odd) half wrong
+    # and then answers the complaint: the party must end with the published, consistent pair
+    dirs += [D("vss", 4, 1, [0, 3, 0, 0], 51, tamper=(1, 2)), D("vss", 4, 1, [0, 3, 0, 0], 52, tamper=(1, 0)),
+             D("vss", 5, 2, [3, 0, 0, 0, 0], 53, tamper=(0, 3)), D("vss", 5, 1, [0, 0, 0, 3, 0], 54, tamper=(3, 4))]
     if not q:
         dirs += [D("dss", n, t, [6 if k == w else 0 for k in range(n)], 40 + 7 * n + w) for n, t in ((6, 2), (7, 3), (7, 2)) for w in range(n)]
         dirs += [D("dkg", 7, 3, [1 if k == w else 0 for k in range(7)], 100 + w + 10 * sd) for w in range(7) for sd in range(4)]
